@@ -30,7 +30,7 @@ use datafusion_functions_aggregate::count::count_udaf;
 use datafusion_functions_aggregate::min_max::{max_udaf, min_udaf};
 use datafusion_functions_aggregate::sum::sum_udaf;
 use datafusion_physical_expr::aggregate::{AggregateExprBuilder, AggregateFunctionExpr};
-use datafusion_physical_expr::expressions::{col, lit, Column};
+use datafusion_physical_expr::expressions::{cast, col, lit, Column};
 use datafusion_physical_expr::{LexOrdering, PhysicalExpr, PhysicalSortExpr};
 use datafusion_physical_plan::aggregates::order::{GroupOrdering, GroupOrderingFull, GroupOrderingPartial};
 use datafusion_physical_plan::aggregates::{AggregateExec, AggregateMode, PhysicalGroupBy};
@@ -169,13 +169,6 @@ fn ord_case(rng: &mut Rng, id: u64) {
             idx.push(cols.remove(j));
         }
     }
-    let sk_of = |k: &Vec<V>| -> Vec<V> {
-        if full {
-            k.clone()
-        } else {
-            idx.iter().map(|&i| k[i].clone()).collect()
-        }
-    };
     let adversarial = rng.chance(1, 5);
     let sorted = !adversarial || rng.chance(1, 2);
     // a key sequence whose ordering columns are clustered: a list of runs of the sort key
@@ -528,7 +521,7 @@ fn agg_exprs(aggs: &[&str], schema: &SchemaRef) -> Vec<Arc<AggregateFunctionExpr
                 "sum" => (sum_udaf(), vec![v]),
                 "min" => (min_udaf(), vec![v]),
                 "max" => (max_udaf(), vec![v]),
-                _ => (avg_udaf(), vec![v]),
+                _ => (avg_udaf(), vec![cast(v, schema, DataType::Float64).unwrap()]),
             };
             Arc::new(AggregateExprBuilder::new(udaf, args).schema(Arc::clone(schema)).alias(format!("{}_v", a)).build().unwrap())
         })
@@ -868,6 +861,12 @@ fn definition(aggs: &[&str], sets: &[Vec<bool>], rows: &[(Vec<V>, V)]) -> Vec<Ve
             }
             groups.entry(kk).or_default().push(v.clone());
         }
+        if rows.is_empty() && !mask.is_empty() && mask.iter().all(|b| *b) {
+            // the empty grouping set has its (grand total) group even when there is no input row
+            let mut kk: Vec<V> = mask.iter().map(|_| V::Null).collect();
+            kk.push(V::I(gid));
+            groups.insert(kk, vec![]);
+        }
         for (k, vs) in groups {
             let mut r = k.clone();
             for a in aggs {
@@ -886,14 +885,20 @@ fn bag_eq(a: &[Vec<V>], b: &[Vec<V>]) -> bool {
     x == y
 }
 
-fn gen_rows(rng: &mut Rng, kts: &[KT]) -> Vec<(Vec<V>, V)> {
-    let n = match rng.below(10) {
-        0 => 0,
-        1 => 1,
-        2..=6 => rng.range(2, 12) as usize,
-        _ => rng.range(12, 40) as usize,
+fn gen_rows(rng: &mut Rng, kts: &[KT], focus: &str) -> Vec<(Vec<V>, V)> {
+    let (n, dom) = match focus {
+        "spill" => (rng.range(60, 200) as usize, rng.range(7, 15)),
+        "skip" => (rng.range(15, 80) as usize, rng.range(4, 15)),
+        _ => (
+            match rng.below(10) {
+                0 => 0,
+                1 => 1,
+                2..=6 => rng.range(2, 12) as usize,
+                _ => rng.range(12, 40) as usize,
+            },
+            rng.range(1, 6),
+        ),
     };
-    let dom = rng.range(1, 6);
     (0..n).map(|_| (kts.iter().map(|kt| gen_key(rng, *kt, dom)).collect(), gen_val(rng))).collect()
 }
 fn gen_kts(rng: &mut Rng) -> Vec<KT> {
@@ -926,15 +931,42 @@ fn gen_order(rng: &mut Rng, nk: usize) -> OrdSpec {
     }
     o
 }
-fn gen_cfg(rng: &mut Rng, nk: usize, has_sets: bool) -> Cfg {
+fn gen_cfg(rng: &mut Rng, nk: usize, has_sets: bool, focus: &str) -> Cfg {
     let modes = ["single", "single_partitioned", "single_repartitioned", "partial_final", "partial_spm_final", "partial_repart_finalpart"];
-    let mode: &'static str = *rng.pick(&modes);
+    let mut mode: &'static str = *rng.pick(&modes);
+    if has_sets && mode.starts_with("single_") {
+        // a pre-partitioned single stage cannot be partitioned on the keys of the expanded grouping sets
+        mode = "single";
+    }
+    if focus == "skip" {
+        mode = *rng.pick(&["partial_final", "partial_repart_finalpart", "partial_spm_final"]);
+    }
     let nparts = if mode == "single_partitioned" { rng.range(2, 3) as usize } else { rng.range(1, 3) as usize };
-    let sizes: Vec<usize> = (0..rng.range(1, 3)).map(|_| rng.range(1, 6) as usize).collect();
+    let sizes: Vec<usize> = (0..rng.range(1, 3)).map(|_| rng.range(1, if focus == "spill" { 24 } else { 6 }) as usize).collect();
     let batch_size = *rng.pick(&[1usize, 2, 3, 4, 8, 8192]);
-    let mem = if rng.chance(1, 3) { Some(*rng.pick(&[600usize, 1200, 2000, 3000, 5000, 9000, 20000])) } else { None };
-    let skip = if rng.chance(1, 3) { Some((rng.range(1, 6) as usize, *rng.pick(&[0.0f64, 0.2, 0.5, 0.9]))) } else { None };
-    let order = if has_sets && rng.chance(1, 2) { vec![] } else { gen_order(rng, nk) };
+    let mem = if focus == "spill" || rng.chance(1, 5) {
+        Some(*rng.pick(&[3000usize, 5000, 7000, 9000, 12000, 16000, 22000, 30000, 45000]))
+    } else {
+        None
+    };
+    let skip = if focus == "skip" {
+        Some((rng.range(1, 8) as usize, *rng.pick(&[0.0f64, 0.1, 0.3])))
+    } else if rng.chance(1, 4) {
+        Some((rng.range(1, 6) as usize, *rng.pick(&[0.0f64, 0.2, 0.5, 0.9])))
+    } else {
+        None
+    };
+    let order = if (has_sets && rng.chance(1, 2)) || (focus == "skip" && rng.chance(3, 4)) {
+        vec![]
+    } else if focus == "ordered" {
+        let mut o = gen_order(rng, nk);
+        if o.is_empty() {
+            o.push((0, rng.chance(1, 3), rng.chance(1, 2)));
+        }
+        o
+    } else {
+        gen_order(rng, nk)
+    };
     Cfg { mode, nparts, sizes, batch_size, mem, skip, migr: rng.chance(3, 4), order }
 }
 
@@ -985,11 +1017,12 @@ fn agg_case_with(rt: &tokio::runtime::Runtime, id: u64, kts: &[KT], aggs: &[&str
 }
 
 fn agg_case(rng: &mut Rng, rt: &tokio::runtime::Runtime, id: u64) {
+    let focus: &str = *rng.pick(&["mix", "mix", "ordered", "ordered", "spill", "skip", "sets"]);
     let kts = gen_kts(rng);
     let aggs = gen_aggs(rng);
-    let rows = gen_rows(rng, &kts);
+    let rows = gen_rows(rng, &kts, focus);
     let nk = kts.len();
-    let sets: Vec<Vec<bool>> = if rng.chance(1, 5) {
+    let sets: Vec<Vec<bool>> = if focus == "sets" {
         match rng.below(3) {
             0 => (0..=nk).map(|i| (0..nk).map(|j| j >= nk - i).collect()).collect(), // ROLLUP
             1 => (0..(1usize << nk)).map(|m| (0..nk).map(|j| (m >> j) & 1 == 1).collect()).collect(), // CUBE
@@ -999,8 +1032,8 @@ fn agg_case(rng: &mut Rng, rt: &tokio::runtime::Runtime, id: u64) {
         vec![]
     };
     let k = rng.range(2, 4) as usize;
-    let cfgs: Vec<Cfg> = (0..k).map(|_| gen_cfg(rng, nk, !sets.is_empty())).collect();
-    agg_case_with(rt, id, &kts, &aggs, &sets, &rows, &cfgs, "gen");
+    let cfgs: Vec<Cfg> = (0..k).map(|_| gen_cfg(rng, nk, !sets.is_empty(), focus)).collect();
+    agg_case_with(rt, id, &kts, &aggs, &sets, &rows, &cfgs, focus);
 }
 
 // ================================================================== stream "stream"
@@ -1013,7 +1046,7 @@ fn stream_case(rng: &mut Rng, rt: &tokio::runtime::Runtime, id: u64) {
     };
     let nk = kts.len();
     let aggs = gen_aggs(rng);
-    let mut rows = gen_rows(rng, &kts);
+    let mut rows = gen_rows(rng, &kts, "mix");
     let mut order = gen_order(rng, nk);
     if order.is_empty() {
         order.push((0, false, false));
